@@ -35,7 +35,36 @@ def gen_ext_history(rng, length):
     for _ in range(rng.range(2, 4)):
         d = new("data")
         ops.append({"op": "add_data", "id": d, "obj": o0, "dtype": rng.choice(["float", "int", "text", "ref"]), "assoc": "VERTEX", "seed": rng.below(1000), "share_type": None})
+    def pattern_type_churn():
+        # the last user of a data type goes away, then the type identifier comes back with another primitive type
+        tu = rng.range(1, 2)
+        a = new("points")
+        ops.append({"op": "create", "id": a, "cls": "points", "parent": g0, "ws": 0, "n": 3})
+        d = new("data")
+        k1, k2 = rng.shuffle(["float", "int"])
+        ops.append({"op": "add_data", "id": d, "obj": a, "dtype": k1, "assoc": "VERTEX", "seed": rng.below(1000), "share_type": None, "type_uid": tu})
+        ops.append({"op": "rm_ws", "e": a if rng.chance(60) else d})
+        if rng.chance(50):
+            ops.append({"op": "listing", "kind": "types"})  # sweeps the dead type from the file before its identifier returns
+        b = new("points")
+        ops.append({"op": "create", "id": b, "cls": "points", "parent": g0, "ws": 0, "n": 4})
+        d2 = new("data")
+        ops.append({"op": "add_data", "id": d2, "obj": b, "dtype": k2, "assoc": "VERTEX", "seed": rng.below(1000), "share_type": None, "type_uid": tu})
+
+    def pattern_unnamed_pgs():
+        o = pick(["points", "curve", "surface"])
+        if o is not None:
+            for _ in range(2):
+                g = new("pg")
+                ops.append({"op": "pg", "id": g, "obj": o, "named": False, "k": rng.range(1, 3), "seed": rng.below(1000)})
+
+    patterns = [p for p, c in ((pattern_type_churn, 30), (pattern_unnamed_pgs, 15)) if rng.chance(c)]
+    at = {rng.range(len(ops), max(len(ops), length - 8)): p for p in patterns}
     while len(ops) < length:
+        for pos in sorted(at):
+            if len(ops) >= pos:
+                at.pop(pos)()
+                break
         w = rng.weighted([("create", 14), ("add_data", 16), ("pg", 12), ("pg_unnamed", 4), ("rm_children", 9), ("rm_ws", 9),
                           ("move", 6), ("copy", 8), ("copy_ws", 4), ("rename", 6), ("values", 7), ("geom", 4), ("listing", 5),
                           ("reopen", 6), ("meta", 3)])
